@@ -36,5 +36,5 @@ HARNESSES = [
     dict(name="meta_reader", file="meta_reader.c", label="proved",
          fp={"destroy": ["meta_reader_destroy", "c19_obj_destroy"],
              "copy": ["meta_reader_copy"], "read_at": "c19_unreachable_read_at", "do_block": "c19_unreachable_do_block"},
-         flags=LEAK, timeout=600),
+         flags=LEAK, timeout=300, unwind=4),
 ]
